@@ -1,7 +1,7 @@
 (* C10 finding -- the P1 barycentric coefficient table of the UNCHANGED tree is shifted by one sub-triangle.
    This file stops compiling once scalar_spaces.py is repaired (docs/fixes/c10_p1_bary_table.diff): delete it and
    switch props/C10.v as in docs/fixes/c10_verif_after_p1_fix.diff. *)
-From Coq Require Import QArith List Arith Bool Lia.
+From Coq Require Import QArith List Arith Bool Lia Setoid.
 From BV Require Import Bary.Syms Bary.Model Bary.Tables.
 From BVgen Require Import BaryTables.
 Import ListNotations.
@@ -26,3 +26,26 @@ Proof.
   exists (fun a => match a with 0%nat => 1 | _ => 0 end), 0%nat, (1, 0). split; [lia|].
   intro H. vm_compute in H. discriminate.
 Qed.
+
+(* what the shipped table is, exactly: row j carries the values of sub-triangle j-1 (mod 6) *)
+Lemma p1_shifted_sweep : forallb p1_entry_shifted_ok idx3 = true.
+Proof. vm_compute. reflexivity. Qed.
+Lemma p1_table_shifted a j v :
+  (a < 3)%nat -> (j < 6)%nat -> (v < 3)%nat -> p1_entry a j v == p1_shape a (sub_vertex ((j + 5) mod 6) v).
+Proof.
+  intros Ha Hj Hv. apply Qeq_bool_eq.
+  exact (proj1 (forallb_forall _ _) p1_shifted_sweep (a, j, v) (in_idx3 a j v Ha Hj Hv)).
+Qed.
+
+
+(* what the shipped table does instead: on sub-triangle j it reproduces the coarse function of sub-triangle j-1 *)
+Theorem p1_pointwise_shifted :
+  forall (c : nat -> Q) (j : nat) (st : pt), (j < 6)%nat ->
+    p1_bary_fun c j st == p1_fun c (sub_map ((j + 5) mod 6) st).
+Proof.
+  intros c j st Hj. unfold p1_fun at 1, sub_map.
+  rewrite !p1_shape_affine by lia.
+  unfold p1_bary_fun, p1_fun, p1_bary_coeff.
+  rewrite !p1_table_shifted by lia. ring.
+Qed.
+
